@@ -57,8 +57,8 @@ def reply_corpus(op, tier):
     if op == "getscript":
         bl = W.bodies(1 if tier == "quick" else 2)
         bl += [b"keep;\r\nOK\r\n", b"{5}\r\nkeep;\r\n", b'a\r\nNO "x"\r\nb', b"\xc3\xa9\r\n\r\n\r\n", b"keep;\r", b"x" * 70 + b"\r\n",
-               # one literal that arrives in more than a thousand fragments under the 1-byte cap (thorough: more than 2^13 / 7)
-               b"# " + b"y" * (1400 if tier == "quick" else 70000) + b"\r\nkeep;\r\n"]
+               # one literal longer than the client's read size that arrives in thousands of fragments under the 1-byte cap
+               b"# " + b"y" * (6000 if tier == "quick" else 70000) + b"\r\nkeep;\r\n"]
         for body in bl:
             for lit in (True, False):
                 if not lit and not refms.can_quote(body):
@@ -131,7 +131,7 @@ def segs_for(length, tier):
         yield ("cap", c)
     # (for very long replies the single cuts are thinned out to every 7th offset plus the last 64)
     for i in range(1, length):
-        if length <= 4096 or i % 7 == 0 or i > length - 64:
+        if length <= 4096 or i <= 64 or i % 7 == 0 or i > length - 64:
             yield ("cuts", [i])
     if length <= pair_max:
         for a, b in itertools.combinations(range(1, length), 2):
